@@ -10,7 +10,7 @@ from simkit import editor as E
 PROP = "C12"
 LEVEL = "exploration"
 BUDGET = {"quick": 150, "thorough": 900}
-RULE = ("Operation histories over a pool of 6 names (ASCII, non-ASCII, with a space, bytes-typed, an NFD/NFC pair) and 6 simple definitions (incl. filters whose only condition is false / true): "
+RULE = ("Operation histories over a pool of 7 names (ASCII, non-ASCII, with a space, bytes-typed, an NFD/NFC pair, the empty string) and 6 simple definitions (replace also with a bare action from a parsed script as content) (incl. filters whose only condition is false / true): "
         "add / update (onto self, existing, new) / replace (content from getfilter, with and without new name and "
         "description) / remove / enable / disable / move up|down, checked against a list model after every step. All "
         "histories up to length 3 (quick) / 4 (thorough) over an alphabet of 20 operations (two of them definitions the factory refuses) on 2 names are enumerated "
@@ -22,7 +22,8 @@ COMPONENTS = {"real": ["sievelib.factory.FiltersSet", "sievelib.commands (serial
 ASSUMPTIONS = ["the return value of disabling an already disabled / enabling an already enabled filter is unconstrained",
                "definitions need no escaping (hostile values are C06's)"]
 
-NAMES = ["a", "Ünï", "with space", b"bytes-name", "e\u0301t\u00e9", "\u00e9t\u00e9"]   # the last two differ only by Unicode normalisation
+NAMES = ["a", "Ünï", "with space", b"bytes-name", "e\u0301t\u00e9", "\u00e9t\u00e9", ""]   # two differ only by Unicode normalisation; the empty string is a name like any other
+FOREIGN = 'redirect "a@example.org";\n'       # replacefilter takes any command, e.g. a bare action from a parsed script
 DEFS = [
     ([("Subject", ":contains", "x")], [("fileinto", "F")], "anyof"),
     ([("size", ":over", "100k"), ("notexists", "X-A", "X-B")], [("redirect", ":copy", "a@b.c"), ("stop",)], "allof"),
@@ -62,7 +63,7 @@ _TREES = {}
 
 def def_tree(di):
     if di not in _TREES:
-        _TREES[di] = expected_tree(DEFS[di])
+        _TREES[di] = sieveval.parse(FOREIGN)[0].tree() if di == "ACT" else expected_tree(DEFS[di])
     return _TREES[di]
 
 
@@ -107,13 +108,17 @@ def apply(st, op):
         return "any", "any", None
     elif kind == "replace":
         _, o, src, newn, desc = op
-        content = fs.getfilter(src)
-        si = model.find(uname(src))
-        if content is None or si == -1:
-            if (content is None) != (si == -1):
-                return ("getfilter:%s" % (content is None), "getfilter:%s" % (si == -1), "getfilter disagrees with the model about %r" % (src,))
-            return None
-        sdef = model.filters[si].copy_def()
+        if src == "<action>":
+            content = E.parsed_command(FOREIGN)
+            sdef = ("ACT", None, None)
+        else:
+            content = fs.getfilter(src)
+            si = model.find(uname(src))
+            if content is None or si == -1:
+                if (content is None) != (si == -1):
+                    return ("getfilter:%s" % (content is None), "getfilter:%s" % (si == -1), "getfilter disagrees with the model about %r" % (src,))
+                return None
+            sdef = model.filters[si].copy_def()
         rc = E.classify(lambda: fs.replacefilter(o, content, newn, desc))
         if desc is not None and "\n" in desc:
             # a description of several lines cannot be rendered as one comment, so the rendering of such a set says nothing;
@@ -244,6 +249,8 @@ def draw_op(wl, mix):
         return ("update", n, NAMES[wl.int("name2", len(NAMES))], wl.int("def", len(DEFS)))
     if kind == "replace":
         src = NAMES[wl.int("src", len(NAMES))]
+        if wl.flag("foreign_content", 1, 6):
+            src = "<action>"
         newn = [None, None, NAMES[wl.int("name2", len(NAMES))]][wl.int("hasnew", 3)]
         desc = [None, "a description", "", "two\nlines"][wl.weighted("desc", [3, 3, 3, 1])]
         return ("replace", n, src, newn, desc)
